@@ -431,7 +431,7 @@ def _subsequence(ch, seq, contiguous):
 
 @st.composite
 def model_cases(draw, classes=None, max_nodes=5, p_node=4, p_se=4, p_ignore=4, p_constr=3, p_opts=0,
-                odd_names=True, noise=True, k_slack=2, weight_types=("int", "float"), p_float_scale=0):
+                odd_names=True, noise=True, k_slack=2, weight_types=("int", "float"), p_float_scale=0, p_equal=4):
     """A full model construction: class, planted instance, kwargs.  p_* are '1 in p' odds (0 = never).
     The result is a JSON case {cls, graph, flow_attr, kw, meta}; meta carries the planted witness."""
     cls = draw(st.sampled_from(classes or ALL_CLASSES))
@@ -458,12 +458,13 @@ def model_cases(draw, classes=None, max_nodes=5, p_node=4, p_se=4, p_ignore=4, p
     wt = draw(st.sampled_from(list(weight_types)))
     k0 = draw(st.sampled_from([2, 1, 2, 3, 3] if cyc else [3, 1, 2, 2, 3, 4]))
     planted = []
+    equal_w = (1 + ch.below(3)) if one_in(p_equal) else None  # ties: greedy / heuristics no longer follow the planted routes
     for _ in range(k0):
         if cyc:
             r = random_st_walk(ch, nodes, edges, target_len=2 + ch.below(6), cap=12, starts=starts, ends=ends)
         else:
             r = random_st_path(ch, nodes, edges, starts=starts, ends=ends)
-        w = 1 + ch.below(4 if cyc else 6)
+        w = equal_w if equal_w is not None else 1 + ch.below(4 if cyc else 6)
         if wt == "float" and not cyc:
             w = w * 0.25 if ch.coin() else float(w)
         elif wt == "float":
